@@ -891,7 +891,8 @@ fn note_facts(r: &mut Report, f: &Facts, shape: &str) {
     if f.has_dup {
         r.observe("collections-with-duplicate-keys", 1);
     }
-    if f.entries >= 2 && f.has_dup {
+    if f.entries >= 2 && f.has_dup && r.distinct_nontrivial() < 250_000 {
+        // (bounded per worker so the thorough tier's hash set stays small)
         r.nontrivial(shape);
     }
 }
